@@ -25,12 +25,33 @@ SLOTS = queue.Queue()
 
 
 def run_patch(args):
+    """one patch on one worker cache directory; directories are shared between concurrent corpus runs (the thorough tier of
+    several properties, a manual run), so a slot is owned through an exclusive file lock, not just within this process"""
+    import fcntl
     kind, name, patch, props, _ = args
-    worker = SLOTS.get()
+    token = SLOTS.get()
     try:
-        return run_patch_in(kind, name, patch, props, worker)
+        k = 0
+        while True:
+            d = os.path.join(VERIF, ".cache", "corpus-%d" % k)
+            os.makedirs(d, exist_ok=True)
+            fh = open(os.path.join(d, ".lock"), "w")
+            try:
+                fcntl.flock(fh, fcntl.LOCK_EX | fcntl.LOCK_NB)
+            except OSError:
+                fh.close()
+                k = (k + 1) % 48
+                if k == 0:
+                    import time
+                    time.sleep(0.5)
+                continue
+            try:
+                return run_patch_in(kind, name, patch, props, k)
+            finally:
+                fcntl.flock(fh, fcntl.LOCK_UN)
+                fh.close()
     finally:
-        SLOTS.put(worker)
+        SLOTS.put(token)
 
 
 def run_patch_in(kind, name, patch, props, worker):
